@@ -70,10 +70,21 @@ func errKind(err error) string {
 	return "other"
 }
 
+// dumpWords: the selected word list.  White box (wb_test.go): read from the package variable.  Fallback through the
+// public API: word i is the first word of the sentence of a 16-byte entropy whose leading 11 bits are i.
 func dumpWords() []string {
+	if f, ok := vWB["bip39.words"]; ok {
+		return f(nil)["words"].([]string)
+	}
 	ws := make([]string, 2048)
 	for i := range ws {
-		ws[i] = wordList.Word(i)
+		e := make([]byte, 16)
+		e[0], e[1] = byte(i>>3), byte(i&7)<<5
+		m, err := EntropyToMnemonic(e)
+		if err != nil || len(m) == 0 {
+			panic("cannot dump the word list through EntropyToMnemonic")
+		}
+		ws[i] = m[0]
 	}
 	return ws
 }
